@@ -1,7 +1,7 @@
 -- Root of the verification library: every module that must be checked is imported here.
-import Sessions.Mutex.Live
-import Sessions.Ids.Ids
-import Sessions.Password.Password
+import Sessions.Mutex.All
+import Sessions.Ids.All
+import Sessions.Password.All
 import Sessions.Drf.Main
 import Sessions.Codec.GobProgram
 import Sessions.Spike.Hist
